@@ -678,15 +678,25 @@ func main() {
 	rep.SetRule("cells = transport{bare conn, pipeline, reuse} x framing x arrival mode{sync: reply consumed and dispatched before Write returns; hold: caller held at the 'written' hook until the reader dispatched; async} x {conn stays open, EOF after reply, read error after reply} x callers{1,2,8,32}, each repeated; one case = one call; non-trivial = the reply was provably consumed before the caller reached its wait (sync/hold handshake completed) or a close/EOF followed the consumed reply; distinct = cell x repetition x caller")
 	rep.Assume("'received on its connection' = the client's reader goroutine took the bytes from the fake connection (recorded at Read return)")
 	rep.Assume("only arrivals >= 200 ms before the deadline are judged; boundary races with the deadline are not generated")
+	rep.Assume("staggered phase (idle/dial timeouts of 100-300 ms, several queries outstanding, answers staggered over <= 0.8 s, caller deadline 8 s): an answer counts as in time when the peer offered it <= 3 s after the query was written (documented reply-wait timeouts: 10 s pipelined, 6 s reuse) and >= 2 s before the caller's deadline on a connection the peer never broke; a connection the client closed under the query counts only if the read deadline that closed it was armed (for < 3 s) after the query had been written, so the legitimate idle-expiry race is never judged")
 	rep.Assume("in fault-free cells (the adversary answers at once and never breaks the connection) the reply also counts as received when the client gave up the connection before its reader took the bytes: nothing but the client can have lost it")
 
 	if rep.ReplayFile != "" {
 		var c struct {
-			Cell cell `json:"cell"`
+			Cell      cell      `json:"cell"`
+			Staggered *stagCell `json:"staggered"`
 		}
 		if err := rep.LoadReplay(&c); err != nil {
 			fmt.Println("cannot load replay:", err)
 			os.Exit(3)
+		}
+		if c.Staggered != nil {
+			for i := 0; i < 5; i++ {
+				if runStagCell(*c.Staggered) {
+					break
+				}
+			}
+			rep.Finish()
 		}
 		for i := 0; i < 50; i++ {
 			c.Cell.Rep = i
@@ -732,6 +742,7 @@ func main() {
 	runtime.GOMAXPROCS(16)
 	runWrap(rep.Seed, 66000)
 	runStaleIdle(rep.Seed, rep.Pick(6, 40))
+	runStaggered(rep.Seed, rep.Pick(2, 10))
 	realUpstreamReplies(rep.Seed, rep.Pick(160, 1600))
 	poolsan.Sweep()
 	rep.Count("cells", int64(cells))
